@@ -187,7 +187,7 @@ class HeapMixin:
         u = z3.Function('unbox_num', I, self.ctx.num) if term.sort() == self.ctx.num else \
             z3.Function('unbox_int', I, I)
         r = f(term)
-        self.fact(u(r) == term)
+        self.fact(z3.And(u(r) == term, r != 0))        # a boxed number is an object, never None
         return r
 
     def box_tuple(self, v):
@@ -201,6 +201,7 @@ class HeapMixin:
             sorts.append(tm.sort())
         f = z3.Function(f'box_tuple{len(terms)}', *sorts, I)
         r = f(*terms)
+        self.fact(r != 0)
         for k, tm in enumerate(terms):
             g = z3.Function(f'tuple{len(terms)}_get{k}', I, tm.sort())
             self.fact(g(r) == tm)
